@@ -86,6 +86,28 @@ Theorem forward_only_authentic_unexpired :
 Proof. intros. eapply sdk_fwd_authentic; eauto. Qed.
 Print Assumptions forward_only_authentic_unexpired.
 
+(** The lifetime the routers enforce is the specification's,
+    [ts <= now <= ts + floor ((ExpTime + 1) * 337.5 s)] ([Spec.spec_time_ok], a literal):
+    [ref_time_ok] is the reference router's check and, by the theorem above, what every hop
+    field the SDK router forwards by satisfies; the second clause is the SDK validator's own pair
+    of comparisons (future timestamp, [expiry_timestamp] before the clock).  Clocks are 32 bit. *)
+Theorem lifetime_is_specified :
+  forall now h i, (now <= 4294967295)%N ->
+    ref_time_ok now h i = spec_time_ok now (i_ts i) (h_exp h)
+    /\ ((now <? i_ts i) || (expiry_ts h i <? now))%N%bool = negb (spec_time_ok now (i_ts i) (h_exp h)).
+Proof.
+  intros now h i B.
+  assert (E : ref_time_ok now h i = spec_time_ok now (i_ts i) (h_exp h)).
+  { unfold ref_time_ok, spec_time_ok, spec_expiry.
+    destruct (i_ts i <=? now)%N eqn:E1;
+      destruct (2 * now <=? 2 * i_ts i + (h_exp h + 1) * 675)%N eqn:E2;
+      destruct (now <=? 4294967295)%N eqn:E3;
+      destruct (now <=? i_ts i + (h_exp h + 1) * 675 / 2)%N eqn:E4;
+      cbn [andb]; try reflexivity; exfalso; lia. }
+  split; [exact E|]. rewrite time_ok_iff, E. reflexivity.
+Qed.
+Print Assumptions lifetime_is_specified.
+
 (** No over-acceptance, one AS step: outside the two open peering findings
     ([step_scope]: no PEERING flag in the path; a segment change only for a packet that came
     from a neighbour and not onto/from a peering link), whatever the SDK router forwards or
